@@ -296,6 +296,7 @@ func (e *env) checkRequest(c *vh.Ctx, br *baseReq, param string, r *rand.Rand, s
 		if strings.HasPrefix(br.label, "random-") || br.label == "replay" {
 			nin = 3
 		}
+		var first map[string]string
 		for i := 0; i < nin; i++ {
 			c.Case("", false)
 			pf, perr := generateFromRequestBytes(base.raw)
@@ -305,11 +306,24 @@ func (e *env) checkRequest(c *vh.Ctx, br *baseReq, param string, r *rand.Rand, s
 			}
 			bad := false
 			for _, n := range sortedKeys(bf) {
-				if pf[n] != bf[n] {
-					c.Check(false, "in-process generation differs from the plugin subprocess (same request)", in(fmt.Sprintf("in-process run %d", i+1), nil, n+": "+firstDiff(bf[n], pf[n])), "")
+				// .meta files (annotate_code) are prototext, whose whitespace is deliberately a function of the
+				// *binary* (internal/detrand): harness binary and plugin binary legitimately differ there, so they are
+				// compared between the in-process runs only
+				ref, refName := bf[n], "the plugin subprocess"
+				if strings.HasSuffix(n, ".meta") {
+					if first == nil {
+						continue
+					}
+					ref, refName = first[n], "the first in-process run"
+				}
+				if pf[n] != ref {
+					c.Check(false, "in-process generation differs from "+refName+" (same request)", in(fmt.Sprintf("in-process run %d", i+1), nil, n+": "+firstDiff(ref, pf[n])), "")
 					bad = true
 					break
 				}
+			}
+			if first == nil {
+				first = pf
 			}
 			if bad {
 				break
